@@ -163,7 +163,7 @@ def compare_model(chk, reqs, metas):
         if mt is None:
             chk.corr_break('model error %s' % out, {'stream': stream.hex()})
             continue
-        if label in ('badmagic', 'badversion') or any(m.get('k') == 'bad_contact' for t in trace for m in t.get('msgs', [])):
+        if label in ('badmagic', 'badversion') or stream[:5] != b'dtn!\x04' or any(m.get('k') == 'bad_contact' for t in trace for m in t.get('msgs', [])):
             # when a bad header is detected is not observable; compare the outcome only
             if len(stream) >= 6 and trace and not trace[-1].get('escaped') and len(trace) == len(mt):
                 if trace[-1]['dead'] != mt[-1]['dead']:
